@@ -10,7 +10,7 @@ func init() {
 
 // VerifHarness_C04: the requested cloud target never exceeds
 // min(max_nodes, cloud group maximum); clamped requests land on the bound.
-// shape: [nodes, pods, failure budget, class menu, prior scale-up scan (0/1), launch-template mode (0/1)]
+// shape: [nodes, pods, failure budget, class menu, prior scale-up scan (0/1), launch-template mode (0/1), describe calls down in the scan under test (0/1)]
 func VerifHarness_C04() {
 	N, P, F, menu := verifShape(0), verifShape(1), verifShape(2), verifShape(3)
 	w := newWorld(F)
@@ -73,11 +73,19 @@ func VerifHarness_C04() {
 			w.setPodCPU(p, verifInt("p"+strconv.Itoa(j)+".cpu", 0, 8*w.cpuPerNode))
 		}
 	}
+	if verifShape(6) == 1 {
+		// the cloud's describe calls are throttled from now on: escalator cannot refresh what it
+		// knows about the group (whose limits have just changed) nor rebuild its provider
+		w.AS.DescribeDown = true
+	}
 	desired := asg.Desired
 	s := w.snap(g)
 	mark := len(w.J.Calls)
-	_ = w.ctrl.RunOnce()
+	errScan := w.ctrl.RunOnce()
 	j := w.summarize(g, mark)
+	if verifShape(6) == 1 && errScan != nil {
+		verifReach("C04.scan-without-fresh-cloud-state-gives-up")
+	}
 
 	bound := imin(maxEff, asgMax)
 	for k := mark; k < len(w.J.Calls); k++ {
@@ -96,7 +104,7 @@ func VerifHarness_C04() {
 		verifAssert("C04.no-request-without-headroom", e.Prev < bound)
 		verifAssert("C04.request-increases", e.N > e.Prev)
 	}
-	if F == 0 {
+	if F == 0 && verifShape(6) == 0 {
 		// below-minimum recovery: the wanted amount is observable
 		below := verifAnd(s.untainted < minEff, verifAnd(minEff <= s.total, s.total <= maxEff))
 		need := minEff - s.untainted
